@@ -120,46 +120,126 @@ theorem moveA_eff (src dst : MailboxId) (hne : src ≠ dst) (pairs : List (Messa
     · intro t' ht'; rw [ht] at ht'; cases ht'; exact hp
     · intro hn; rw [ht] at hn; cases hn
 
-/-- **Named hypothesis of `move_ref_partial`**: every named message is (still) in the source mailbox -/
-def NamedInSrc (s : State) (src : MailboxId) (pairs : List (MessageId × RemoteId)) : Prop :=
-  ∀ t, s.db.table? src = some t → ∀ p ∈ pairs, ∃ r ∈ t.rows, r.msgId = p.1
-
 theorem abs_hasMailbox (s : State) (row : MboxRow) (h : row ∈ s.db.mailboxes) : (abs s).hasMailbox row.name = true := by
   unfold MailboxRef.State.hasMailbox abs absP
   rw [List.any_eq_true]
   exact ⟨absMailbox (proj s.db) row, List.mem_map.mpr ⟨row, h, rfl⟩, by simp [absMailbox]⟩
 
+theorem lookup_map_abs (P : Proj) (row : MboxRow) : ∀ (l : List MboxRow), (l.map (·.name)).Nodup → row ∈ l →
+    (l.map (absMailbox P)).lookup row.name = some (absMailbox P row).2 := by
+  intro l
+  induction l with
+  | nil => intro _ h; cases h
+  | cons a r ih =>
+    intro hn hr
+    rw [List.map_cons, List.nodup_cons] at hn
+    rw [List.map_cons]
+    rcases List.mem_cons.mp hr with rfl | hr
+    · simp [List.lookup_cons, absMailbox]
+    · have hne : row.name ≠ a.name := fun e => hn.1 (by rw [← e]; exact List.mem_map_of_mem hr)
+      have hb : (row.name == (absMailbox P a).1) = false := by simpa [absMailbox] using hne
+      have hl : List.lookup row.name (absMailbox P a :: List.map (absMailbox P) r) = List.lookup row.name (List.map (absMailbox P) r) := by
+        cases hp : absMailbox P a with
+        | mk k v => rw [hp] at hb; simp only at hb; simp [List.lookup_cons, hb]
+      rw [hl]
+      exact ih hn.2 hr
+
+/-- the reference's "is the message in the mailbox" read off the index -/
+theorem abs_holds (s : State) (hInv : Inv s) (row : MboxRow) (hrow : row ∈ s.db.mailboxes) (m : MessageId) :
+    (abs s).holds row.name m = match s.db.table? row.id with
+      | some t => t.rows.any (·.msgId == m)
+      | none => false := by
+  unfold MailboxRef.State.holds MailboxRef.State.mailbox?
+  have : (abs s).mailboxes.lookup row.name = some (absMailbox (proj s.db) row).2 :=
+    lookup_map_abs (proj s.db) row _ hInv.names hrow
+  rw [this]
+  simp only [absMailbox, proj_table?]
+  cases ht : s.db.table? row.id with
+  | none => simp
+  | some t =>
+    have hst : SortedT t := hInv.sorted row.id t (by simpa using ht)
+    simp only [absTable]
+    rw [sortByUid_of_sorted _ hst.1]
+    rw [List.any_map]
+    rfl
+
+/-- the messages `MailboxFilterContains` finds in the source are the ones the reference says the mailbox holds -/
+theorem toMove_eq (s : State) (hInv : Inv s) (row : MboxRow) (hrow : row ∈ s.db.mailboxes) (pairs : List (MessageId × RemoteId))
+    (inSrc : List MessageId) (h : mailboxFilterContains factSites s.db row.id pairs = .ok inSrc) :
+    (pairs.filter fun p => inSrc.contains p.1).map (·.1) = (pairs.map (·.1)).filter ((abs s).holds row.name) := by
+  rw [List.filter_map]
+  congr 1
+  apply List.filter_congr
+  intro p hp
+  simp only [Function.comp]
+  rw [abs_holds s hInv row hrow]
+  have hne : pairs ≠ [] := fun e => by rw [e] at hp; cases hp
+  obtain ⟨t, ht, hc⟩ := filterContains_char s.db row.id pairs inSrc h hne
+  rw [ht]
+  simp only
+  rw [Bool.eq_iff_iff]
+  simp only [List.contains_iff_mem, List.any_eq_true, beq_iff_eq]
+  rw [hc]
+  constructor
+  · rintro ⟨_, r, hr, he⟩; exact ⟨r, hr, he⟩
+  · rintro ⟨r, hr, he⟩; exact ⟨List.mem_map.mpr ⟨p, hp, rfl⟩, r, hr, he⟩
+
+theorem add_nil_id (b : MailboxRef.Mailbox) : b.add [] = b := by
+  cases b; simp [MailboxRef.Mailbox.add, MailboxRef.Mailbox.remove, MailboxRef.freshEntries]
+
 include hE in
-/-- MOVE: `actionMoveMessages` = `refMove`, when the named messages are in the source mailbox -/
+/-- MOVE: `actionMoveMessages` = `refMove` — exactly the named messages still in the source move (onto the source
+    itself: remove + re-add under new UIDs) -/
 theorem actionMove_ref (s s' : State) (hInv : Inv s) (sel d : MboxRow) (hsel : sel ∈ s.db.mailboxes) (hd : d ∈ s.db.mailboxes)
-    (pairs : List (MessageId × RemoteId)) (hsrc : NamedInSrc s sel.id pairs)
+    (pairs : List (MessageId × RemoteId))
     (res : List Upd × List SnapRow) (h : actionMove E pairs sel.id d.id s = .ok (res, s')) :
     Inv s' ∧ abs s' = MailboxRef.refMove (abs s) sel.name d.name (pairs.map (·.1)) ∧ Untouched s s' := by
   unfold MailboxRef.refMove
   rw [abs_hasMailbox s d hd]
   simp only [Bool.not_true, Bool.false_eq_true, if_false]
   unfold actionMove at h
+  rw [bindA_ok] at h
+  obtain ⟨inSrc, s0, h0, h⟩ := h
+  rw [liftRead_ok] at h0
+  obtain ⟨h0, e0⟩ := h0
+  rw [e0] at h
+  rw [hE] at h0
+  have hmv := toMove_eq s hInv sel hsel pairs inSrc h0
+  generalize htm : (pairs.filter fun p => inSrc.contains p.1) = toMove at h hmv
+  rw [← hmv]
   by_cases hsd : sel.id = d.id
-  · -- onto the selected mailbox itself: remove, then add (= COPY onto itself)
+  · -- onto the selected mailbox itself: remove, then add (= COPY onto itself) the messages that are there
     have hrow : sel = d := nodup_map_inj (·.id) _ hInv.ids sel hsel d hd hsd
     subst hrow
-    simp only [BEq.rfl, if_true] at h
-    rw [bindA_ok] at h
-    obtain ⟨ups, s1, h1, h⟩ := h
-    rw [bindA_ok] at h
-    obtain ⟨ur, s2, h2, h⟩ := h
-    rw [pureA_ok] at h
-    cases h
-    have e1 := removeUnchecked_eff E hE sel.id pairs s s1 ups h1
-    obtain ⟨htab2, e2⟩ := actionAdd_eff E hE sel.id pairs s1 s' ur h2
-    have htab := e1.table_of htab2
-    have eff := (e1.comp e2).congr (g' := fun t => addRows pairs (rmRows (pairs.map (·.1)) t))
-      (fun t _ => by rw [rmRows_rmRows])
-    have := abs_TabEff s s' hInv sel hsel _ (fun b => b.add (pairs.map (·.1))) eff
-      (fun t ht => ⟨(ht.rm _).add pairs, absTable_add t ht pairs⟩)
-      (fun hn => by obtain ⟨t, ht⟩ := htab; rw [ht] at hn; cases hn)
-    simp only [BEq.rfl, if_true]
-    exact ⟨this.1, this.2, eff.same.1, eff.same.2.1, eff.1.2.2.1⟩
+    simp only [BEq.rfl, if_true] at h ⊢
+    by_cases hemp : toMove.isEmpty = true
+    · simp only [hemp, if_true] at h
+      rw [pureA_ok] at h
+      cases h
+      have : toMove = [] := by simpa using hemp
+      subst this
+      refine ⟨hInv, ?_, rfl, rfl, rfl⟩
+      unfold MailboxRef.refCopy
+      symm
+      apply updMailbox_id
+      intro p _ _
+      exact add_nil_id p.2
+    · simp only [hemp, Bool.false_eq_true, if_false] at h
+      rw [bindA_ok] at h
+      obtain ⟨ups, s1, h1, h⟩ := h
+      rw [bindA_ok] at h
+      obtain ⟨ur, s2, h2, h⟩ := h
+      rw [pureA_ok] at h
+      cases h
+      have e1 := removeUnchecked_eff E hE sel.id toMove s s1 ups h1
+      obtain ⟨htab2, e2⟩ := actionAdd_eff E hE sel.id toMove s1 s' ur h2
+      have htab := e1.table_of htab2
+      have eff := (e1.comp e2).congr (g' := fun t => addRows toMove (rmRows (toMove.map (·.1)) t))
+        (fun t _ => by rw [rmRows_rmRows])
+      have := abs_TabEff s s' hInv sel hsel _ (fun b => b.add (toMove.map (·.1))) eff
+        (fun t ht => ⟨(ht.rm _).add toMove, absTable_add t ht toMove⟩)
+        (fun hn => by obtain ⟨t, ht⟩ := htab; rw [ht] at hn; cases hn)
+      exact ⟨this.1, this.2, eff.same.1, eff.same.2.1, eff.1.2.2.1⟩
   · have hbeq : (sel.id == d.id) = false := by simpa using hsd
     have hnames : sel.name ≠ d.name := fun e => hsd (congrArg (·.id) (nodup_map_inj (·.name) _ hInv.names sel hsel d hd e))
     have hnb : (sel.name == d.name) = false := by simpa using hnames
@@ -167,61 +247,44 @@ theorem actionMove_ref (s s' : State) (hInv : Inv s) (sel d : MboxRow) (hsel : s
     rw [hnb]
     simp only [Bool.false_eq_true, if_false]
     rw [bindA_ok] at h
-    obtain ⟨inDst, s0, h0, h⟩ := h
-    rw [liftRead_ok] at h0
-    obtain ⟨h0, e0⟩ := h0
-    rw [e0] at h
-    rw [hE] at h0
-    rw [bindA_ok] at h
-    obtain ⟨ups, s1, h1, h⟩ := h
-    rw [bindA_ok] at h
-    obtain ⟨inSrc, s1', h2, h⟩ := h
+    obtain ⟨inDst, s0', h2, h⟩ := h
     rw [liftRead_ok] at h2
     obtain ⟨h2, e1'⟩ := h2
     rw [e1'] at h
     rw [hE] at h2
     rw [bindA_ok] at h
+    obtain ⟨ups, s1, h1, h⟩ := h
+    rw [bindA_ok] at h
     obtain ⟨ru, s3, h3, h⟩ := h
     rw [pureA_ok] at h
     cases h
-    -- 1. instances in the destination are removed
-    have e1 : TabEff d.id (rmRows (pairs.map (·.1))) s s1 := by
-      by_cases hemp : (pairs.filter fun p => inDst.contains p.1).isEmpty = true
+    -- 1. their instances in the destination are removed
+    have e1 : TabEff d.id (rmRows (toMove.map (·.1))) s s1 := by
+      by_cases hemp : (toMove.filter fun p => inDst.contains p.1).isEmpty = true
       · simp only [hemp, Bool.not_true, Bool.false_eq_true, if_false] at h1
         rw [pureA_ok] at h1
         cases h1
         apply TabEff.noop
         intro t ht
-        rw [← filter_have _ d.id pairs inDst h0 t ht]
-        have : (pairs.filter fun p => inDst.contains p.1) = [] := by simpa using hemp
+        rw [← filter_have _ d.id toMove inDst h2 t ht]
+        have : (toMove.filter fun p => inDst.contains p.1) = [] := by simpa using hemp
         rw [this]; exact rmRows_nil t
-      · have hne : (!(pairs.filter fun p => inDst.contains p.1).isEmpty) = true := by simpa using hemp
+      · have hne : (!(toMove.filter fun p => inDst.contains p.1).isEmpty) = true := by simpa using hemp
         simp only [hne, if_true] at h1
-        exact (removeUnchecked_eff E hE d.id _ s s1 ups h1).congr (fun t ht => filter_have _ d.id pairs inDst h0 t ht)
-    -- 2. all named messages are in the source: all of them move
-    have hsrc1 : s1.db.table? sel.id = s.db.table? sel.id := e1.same.2.2.2 sel.id hsd
-    have hall : (pairs.filter fun p => inSrc.contains p.1) = pairs := by
-      rcases hs : s1.db.table? sel.id with _ | t
-      · -- no table: MailboxFilterContains only succeeds for the empty list
-        by_cases hemp : pairs = []
-        · subst hemp; rfl
-        · obtain ⟨t', ht', _⟩ := filterContains_char _ sel.id pairs inSrc h2 hemp
-          rw [hs] at ht'; cases ht'
-      · exact filter_all _ sel.id pairs inSrc h2 t hs (hsrc t (by rw [← hsrc1]; exact hs))
-    rw [hall] at h3
-    obtain ⟨s2, htabd, e2, e3⟩ := moveA_eff E hE sel.id d.id hsd pairs _ s1 s' ru h3
-    -- through abs
+        exact (removeUnchecked_eff E hE d.id _ s s1 ups h1).congr (fun t ht => filter_have _ d.id toMove inDst h2 t ht)
+    -- 2. they leave the source, 3. they arrive in the destination
+    obtain ⟨s2, htabd, e2, e3⟩ := moveA_eff E hE sel.id d.id hsd toMove _ s1 s' ru h3
     have hm1 : s1.db.mailboxes = s.db.mailboxes := e1.same.2.2.1
-    obtain ⟨hInv1, ha1⟩ := abs_TabEff s s1 hInv d hd _ (fun b => b.remove (pairs.map (·.1))) e1
+    obtain ⟨hInv1, ha1⟩ := abs_TabEff s s1 hInv d hd _ (fun b => b.remove (toMove.map (·.1))) e1
       (fun t ht => ⟨ht.rm _, absTable_rm t ht _⟩) (fun _ => by simp [MailboxRef.Mailbox.remove])
-    obtain ⟨hInv2, ha2⟩ := abs_TabEff s1 s2 hInv1 sel (by rw [hm1]; exact hsel) _ (fun b => b.remove (pairs.map (·.1))) e2
+    obtain ⟨hInv2, ha2⟩ := abs_TabEff s1 s2 hInv1 sel (by rw [hm1]; exact hsel) _ (fun b => b.remove (toMove.map (·.1))) e2
       (fun t ht => ⟨ht.rm _, absTable_rm t ht _⟩) (fun _ => by simp [MailboxRef.Mailbox.remove])
     have hm2 : s2.db.mailboxes = s1.db.mailboxes := e2.same.2.2.1
     have htab2 : ∃ t, s2.db.table? d.id = some t := by
       obtain ⟨t, ht⟩ := htabd
       exact ⟨t, by rw [e2.same.2.2.2 d.id (fun e => hsd e.symm)]; exact ht⟩
-    obtain ⟨hInv3, ha3⟩ := abs_TabEff s2 s' hInv2 d (by rw [hm2, hm1]; exact hd) _ (addOnly (pairs.map (·.1))) e3
-      (fun t ht => ⟨ht.add pairs, absTable_addOnly t ht pairs⟩)
+    obtain ⟨hInv3, ha3⟩ := abs_TabEff s2 s' hInv2 d (by rw [hm2, hm1]; exact hd) _ (addOnly (toMove.map (·.1))) e3
+      (fun t ht => ⟨ht.add toMove, absTable_addOnly t ht toMove⟩)
       (fun hn => by obtain ⟨t, ht⟩ := htab2; rw [ht] at hn; cases hn)
     refine ⟨hInv3, ?_, ?_⟩
     · rw [ha3, ha2, ha1]
